@@ -484,17 +484,12 @@ impl BsUnit {
         let pc = u64::from(pc);
         match self.lines.binary_search_by_key(&pc, |line| line.address) {
             Ok(mut p) => {
-                let mut place = self.find_place_by_idx(p);
-                p -= 1;
-
-                while let Some(next_place) = self.find_place_by_idx(p)
-                    && u64::from(next_place.address) == pc
-                {
-                    place = Some(next_place);
+                // step back to the first row with this address
+                while p > 0 && self.lines[p - 1].address == pc {
                     p -= 1;
                 }
 
-                place
+                self.find_place_by_idx(p)
             }
             Err(_) => None,
         }
